@@ -195,7 +195,7 @@ func AnalyseC18(rep *report.Reporter, cov report.Coverage) {
 	var sums []ConfigSummary
 	worstBound := 0
 	for _, n := range names {
-		if g := graphs[n]; len(g.suspect) > 0 && len(g.nondet) == 0 && rep.Count() == 0 {
+		if g := graphs[n]; len(g.suspect) > 0 && len(g.nondet) == 0 && rep.Count() == 0 && len(FallbackConfigs("C18")) == 0 {
 			report.Fatal("C18 analysis: in %q the same canonical state, reached by different histories, has different successors for the same event although the code under test showed no nondeterminism: the canonical form merges states with different futures: %v", n, g.suspect)
 		}
 	}
